@@ -87,7 +87,7 @@ func nxFatal(format string, a ...interface{}) {
 
 type nxLogger struct{}
 
-func (nxLogger) DebugEnabled() bool             { return false }
+func (nxLogger) DebugEnabled() bool            { return false }
 func (nxLogger) Debugf(string, ...interface{}) {}
 func (nxLogger) Warnf(string, ...interface{})  {}
 
@@ -410,6 +410,8 @@ type nxHS struct {
 	lsns  []*nxHSListener
 	mu    sync.Mutex
 	waits map[int]*nxWait
+	// number of cases whose honest frames were not served within the deadline
+	unserved int32
 }
 
 func nxPayload(id int, role string) []byte { return []byte(fmt.Sprintf("C16 %d %s", id, role)) }
@@ -683,14 +685,23 @@ func (h *nxHS) runCase(c nxCase) {
 	post := h.honestParty(l.addr, h.job.HonestPst)
 	d = nxPayload(c.ID, "hpost")
 	post.Send(2, nxSHA(d), d, 0)
+	// honest frames normally arrive within milliseconds; 30 s is the margin against load. Once three cases have waited in vain the
+	// honest service is broken for good (every further case would be reported as well): stop paying 30 s per case.
 	served := true
-	deadline := time.After(30 * time.Second)
+	wait := 30 * time.Second
+	if atomic.LoadInt32(&h.unserved) >= 3 {
+		wait = 500 * time.Millisecond
+	}
+	deadline := time.After(wait)
 	for _, ch := range []chan struct{}{w.hpre, w.hpost} {
 		select {
 		case <-ch:
 		case <-deadline:
 			served = false
 		}
+	}
+	if !served {
+		atomic.AddInt32(&h.unserved, 1)
 	}
 	select {
 	case <-w.atk:
@@ -1104,6 +1115,8 @@ func (r *nfRun) rawConn(ci int, rc nfRawConn, wg *sync.WaitGroup) {
 	}
 }
 
+var nfIncomplete int32 // scenarios of this process that ran into their deadline
+
 func nfExec(mat *nxMaterial, out *nxOut, s nfScenario) {
 	r := &nfRun{s: s, mat: mat, out: out, nodes: map[int]*nfNode{}}
 	r.ev(obj{"e": "reset", "fault": s.Fault, "victim": s.Victim, "n": s.N, "dom": s.Dom})
@@ -1170,7 +1183,15 @@ func nfExec(mat *nxMaterial, out *nxOut, s nfScenario) {
 	}
 	done := make(chan struct{})
 	go func() { wg.Wait(); close(done) }()
-	deadline := time.Now().Add(time.Duration(s.TimeoutMs) * time.Millisecond)
+	timeout := time.Duration(s.TimeoutMs) * time.Millisecond
+	flood := false
+	for _, p := range s.Progs {
+		flood = flood || p.Flood > 0
+	}
+	if atomic.LoadInt32(&nfIncomplete) >= 3 && !flood && timeout > 5*time.Second {
+		timeout = 5 * time.Second // three scenarios already ran into the full deadline: the transport is broken for good
+	}
+	deadline := time.Now().Add(timeout)
 	progsDone := false
 	for time.Now().Before(deadline) {
 		if !progsDone {
@@ -1187,6 +1208,9 @@ func nfExec(mat *nxMaterial, out *nxOut, s nfScenario) {
 		time.Sleep(2 * time.Millisecond)
 	}
 	complete := progsDone && atomic.LoadInt64(&r.received) >= atomic.LoadInt64(&r.expected)
+	if !complete {
+		atomic.AddInt32(&nfIncomplete, 1)
+	}
 	time.Sleep(time.Duration(s.GraceMs) * time.Millisecond) // duplicates / spurious deliveries would show up now
 	r.ev(obj{"e": "end", "complete": complete, "progs_done": progsDone, "received": atomic.LoadInt64(&r.received),
 		"expected": atomic.LoadInt64(&r.expected), "inconclusive": inconclusive})
